@@ -95,10 +95,10 @@ pub enum OutCall {
     UwriteChar(char),
     /// `core::write!(w, "{}", c)` with a `char` argument (goes through `fmt::Write::write_char`)
     FmtChar(char),
-    /// `Writer::write_list_element(name, description, longest_name)` - generated by C03 only (the layout it produces is
-    /// nobody's property; that it cannot panic for any argument is C03's)
+    /// `Writer::write_list_element(name, description, longest_name)`: the layout it produces is nobody's property (see
+    /// `rendered`); that it cannot panic for any argument is C03's, that its text is framed like any other text is C13's
     ListElement(String, String, usize),
-    /// `Writer::write_title(text)` - C03 only
+    /// `Writer::write_title(text)`
     Title(String),
     /// `core::write!` / `writeln!` with a literal format string and no arguments (`Arguments::as_str()` is `Some`):
     /// 0 `write!(w, "done")`, 1 `writeln!(w, "one")`, 2 `write!(w, "\n")`, 3 `write!(w, "a\nb")`, 4 `write!(w, "")`
@@ -117,11 +117,44 @@ impl OutCall {
             OutCall::Fmt(a, b) => format!("{}-{}", a, b),
             OutCall::SetPrompt(_) | OutCall::FailParse => String::new(),
             OutCall::UwriteChar(c) | OutCall::FmtChar(c) => c.to_string(),
-            OutCall::ListElement(n, d, longest) => format!("  {}{}  {}\n", n, " ".repeat(longest.saturating_sub(n.len())), d),
-            OutCall::Title(t) => t.clone(),
+            OutCall::ListElement(..) | OutCall::Title(_) => rendered(self),
             OutCall::FmtLit(k) => ["done", "one\n", "\n", "a\nb", ""][(*k % 5) as usize].to_string(),
         }
     }
+}
+
+thread_local! {
+    static RENDERED: RefCell<std::collections::HashMap<OutCall, String>> = RefCell::new(std::collections::HashMap::new());
+}
+
+/// The text a formatting helper of `Writer` (`write_list_element`, `write_title`) stands for. Its layout is nobody's property,
+/// so it is not modelled but *observed*: the call is made alone, followed by `write_str("|")`, through `Cli::write` on a fresh
+/// Cli, and whatever arrives between the erased line and that bar is the text (CR LF read back as LF). Wherever the call then
+/// appears in an output script it must frame like `write_str` of that text (C13 speaks about the text, not about the entry
+/// point). If the lone call does not come out in that shape the documented layout is used, and the comparison fails there.
+pub fn rendered(call: &OutCall) -> String {
+    if let Some(t) = RENDERED.with(|r| r.borrow().get(call).cloned()) {
+        return t;
+    }
+    let documented = match call {
+        OutCall::ListElement(n, d, longest) => format!("  {}{}  {}\n", n, " ".repeat(longest.saturating_sub(n.len())), d),
+        OutCall::Title(t) => t.clone(),
+        other => other.text(),
+    };
+    let observed = (|| -> Option<String> {
+        let cfg = Config { cmd_buf: 0, hist_buf: 0, prompt: 0, ..Config::default() };
+        let (s, _) = Sess::<RawSet>::new(&cfg, None);
+        let mut s = s.ok()?;
+        let o0 = s.out_len();
+        crate::engine::guarded(|| s.write(&[call.clone(), OutCall::WriteStr("|".into())])).ok()?.ok()?;
+        let out = s.out_from(o0);
+        let out = String::from_utf8(out).ok()?;
+        let body = out.strip_prefix("\r\x1b[2K")?.strip_suffix("|\r\n$ ")?;
+        Some(body.replace("\r\n", "\n"))
+    })();
+    let t = observed.unwrap_or(documented);
+    RENDERED.with(|r| r.borrow_mut().insert(call.clone(), t.clone()));
+    t
 }
 
 /// The calls that are executed: everything before the first `FailParse`
